@@ -34,6 +34,10 @@ pub enum AuxSpec {
     PlantedNoMac(u32, u64),
     /// valid level word and a zero MAC
     ZeroMac(u32),
+    /// a valid buffer (budget) whose level word is replaced: selector 0 marker only (0x80000000),
+    /// 1 lowest named level removed, 2 all level bits set, 3 0xffffffff, 4 marker bit cleared,
+    /// 5 one level above the tree height named, 6.. a single level bit (sel - 6)
+    LevelWord(u32, u8),
 }
 
 #[derive(Clone, Debug, PartialEq, Eq, Serialize, Deserialize)]
@@ -119,6 +123,24 @@ pub fn materialise(c: &AuxCase) -> (Vec<u8>, &'static str) {
             }
             v[0..4].copy_from_slice(&good[0..4]);
             (v, "planted-no-mac")
+        }
+        AuxSpec::LevelWord(b, sel) => {
+            let mut v = valid_aux(&m, &c.levels, &seed, *b);
+            if v.len() >= 4 {
+                let w = u32::from_be_bytes([v[0], v[1], v[2], v[3]]);
+                let low = w & 0x7fff_ffff;
+                let nw = match sel % 38 {
+                    0 => 0x8000_0000,
+                    1 => 0x8000_0000 | (low & low.wrapping_sub(1)),
+                    2 => 0x83ff_ffff,
+                    3 => 0xffff_ffff,
+                    4 => low,
+                    5 => w | (1 << (c.levels[0].1 + 1)),
+                    k => 0x8000_0000 | (1u32 << (k - 6).min(30)),
+                };
+                v[0..4].copy_from_slice(&nw.to_be_bytes());
+            }
+            (v, "level-word")
         }
         AuxSpec::ZeroMac(b) => {
             let mut v = valid_aux(&m, &c.levels, &seed, *b);
@@ -400,7 +422,8 @@ fn spec_strategy(n: usize, h0: u32) -> BoxedStrategy<AuxSpec> {
         3 => (1u32..(full + 64), any::<u64>()).prop_map(|(l, t)| AuxSpec::GarbageFirstZero(l, t)),
         2 => (1u32..(full + 64), any::<u64>()).prop_map(|(l, t)| AuxSpec::GarbageFirstNonZero(l, t)),
         3 => (budget.clone(), any::<u64>()).prop_map(|(b, t)| AuxSpec::PlantedNoMac(b, t)),
-        1 => budget.prop_map(AuxSpec::ZeroMac),
+        1 => budget.clone().prop_map(AuxSpec::ZeroMac),
+        3 => (budget, 0u8..38).prop_map(|(b, s)| AuxSpec::LevelWord(b, s)),
     ]
     .boxed()
 }
@@ -523,6 +546,19 @@ pub fn run(ctx: &Ctx) {
             if take {
                 let raw = ((((i as u64) << 32) + (1u64 << 31)) / bits as u64) as u32;
                 items.push(AuxCase { hash: *h, levels: levels.clone(), seed: 1, spec: AuxSpec::BitFlip(full, raw), op: if i % 3 == 0 { AuxOp::Keygen } else { AuxOp::Sign((i as u64 * 5) % 128) } });
+            }
+        }
+    }
+    // every replacement level word on buffers that cache one, two and three levels
+    for h in ALL_HASHES {
+        let n = h.n();
+        let levels: Vec<Level> = vec![(4, 5), (8, 2)];
+        let full = (4 + n + (n << 5) + (n << 3) + (n << 1)) as u32;
+        for budget in [full, (4 + n + (n << 1)) as u32, (4 + n + (n << 3)) as u32, (4 + n + (n << 5)) as u32, (4 + n + (n << 3) + (n << 1)) as u32] {
+            for sel in 0..38u8 {
+                for op in [AuxOp::Keygen, AuxOp::Sign(sel as u64), AuxOp::SignViaKey(sel as u64 + 40)] {
+                    items.push(AuxCase { hash: h, levels: levels.clone(), seed: 1, spec: AuxSpec::LevelWord(budget, sel), op });
+                }
             }
         }
     }
